@@ -67,7 +67,86 @@ func renderRuleFile(sp *ruleFileSpec) ([]byte, simrt.SimFault) {
 	panic("unknown rule file kind " + sp.Kind)
 }
 
+// The policy table: every single rule file and every ORDERED pair of rule files over the ten
+// file kinds (valid, four ways of being unreadable, torn at a group boundary, torn inside a
+// group, empty, DSL violation, unloadable import) x six failOn forms x the legacy flag x five
+// pattern layouts (one glob, exact patterns in order, reversed, a no-match pattern after, before). It is finite and
+// small, so it is ENUMERATED - by both tiers, before the sampled scenarios - instead of sampled.
+var (
+	c18TableKinds   = []string{"valid", "unreadable:" + simrt.FaultEIO, "unreadable:" + simrt.FaultEISDIR, "unreadable:" + simrt.FaultVanished, "unreadable:" + simrt.FaultEACCES, "torn-boundary", "torn-inside", "empty", "dsl-violation", "bad-import"}
+	c18TableFailOns = []string{"", "dsl", "import", "all", "dsl,import", "import,all"}
+)
+
+// c18Layouts: one glob; exact patterns in order; reversed; a pattern matching nothing appended; the same put first.
+const c18Layouts = 5
+
+// C18TableSize is the number of scenarios of the enumerated policy table.
+func C18TableSize() int {
+	k := len(c18TableKinds)
+	return (k + k*k) * len(c18TableFailOns) * 2 * c18Layouts
+}
+
+func c18TableFile(dir string, i int, kind string) ruleFileSpec {
+	sp := ruleFileSpec{Path: fmt.Sprintf("%sa-rules%d.go", dir, i), Kind: kind}
+	if strings.HasPrefix(kind, "unreadable:") {
+		sp.Kind, sp.Fault = "unreadable", strings.TrimPrefix(kind, "unreadable:")
+	}
+	sp.Groups = []model.RuleGroup{
+		{Name: fmt.Sprintf("f%dg0", i), Hit: fmt.Sprintf("hit f%dg0", i)},
+		{Name: fmt.Sprintf("f%dg1", i), Hit: fmt.Sprintf("hit f%dg1", i), Tags: []string{"style"}},
+	}
+	if sp.Kind == "torn-boundary" {
+		sp.Keep = 1
+	}
+	return sp
+}
+
+func (w *Worker) genC18Table(rc *simapi.RunConfig) {
+	rc.Kind = "rulefs"
+	rc.Visits = []simapi.Visit{{Pkg: probePkg, Files: []int{0}}}
+	dir := fmt.Sprintf("%st%d/", simrt.FSPrefix, rc.Index)
+	i := rc.Index
+	layout := i % c18Layouts
+	i /= c18Layouts
+	legacy := i%2 == 1
+	i /= 2
+	failOn := c18TableFailOns[i%len(c18TableFailOns)]
+	i /= len(c18TableFailOns)
+	k := len(c18TableKinds)
+	ex := c18Extra{Builds: 1}
+	if i < k {
+		ex.Specs = []ruleFileSpec{c18TableFile(dir, 0, c18TableKinds[i])}
+	} else {
+		i -= k
+		ex.Specs = []ruleFileSpec{c18TableFile(dir, 0, c18TableKinds[i/k]), c18TableFile(dir, 1, c18TableKinds[i%k])}
+	}
+	var pats []string
+	switch {
+	case layout == 0 || len(ex.Specs) == 1 && layout == 1:
+		pats = []string{dir + "a-*.go"}
+	case layout == 1:
+		pats = []string{ex.Specs[0].Path, ex.Specs[1].Path}
+	case layout == 2:
+		for j := len(ex.Specs) - 1; j >= 0; j-- {
+			pats = append(pats, ex.Specs[j].Path)
+		}
+	case layout == 3:
+		pats = []string{dir + "a-*.go", dir + "zz-*.go"}
+	default:
+		pats = []string{dir + "zz-*.go", dir + "a-*.go"}
+	}
+	ex.RulesArg = strings.Join(pats, ",")
+	sc := &ex.Scenario
+	sc.Patterns, sc.FailOn, sc.FailOnError, sc.Enable = pats, failOn, legacy, "<all>"
+	ex.Rebuild()
+	rc.Extra, _ = json.Marshal(ex)
+}
+
 func (w *Worker) genC18(rc *simapi.RunConfig) {
+	if rc.Index < C18TableSize() {
+		w.genC18Table(rc)
+		return
+	}
 	r := simrt.NewRand(rc.RunSeed, "fault")
 	rc.Kind = "rulefs"
 	rc.Visits = []simapi.Visit{{Pkg: probePkg, Files: []int{0}}}
